@@ -1,6 +1,6 @@
 """C07 -- plate operations act well-by-well on exactly the addressed wells.  Oracle: every addressed well is recomputed with the stand-alone Container operation on that well's contents (sequentially for one-to-many / many-to-one), every other well must be identical."""
 import random
-import common, dsl, gen, histcheck, oracles
+import common, dsl, gen, histcheck, oracles, recipes
 from props import C01 as base
 
 RULE = 'non-trivial = successful plate operation (transfer in/out/between, remove, fill_to) on a region; distinct by (operation, pairing form, region kinds, shapes, unit)'
@@ -9,7 +9,7 @@ WEIGHTS = {'newc': 1, 'newp': 0.4, 'cc': 1, 'cp': 4, 'pc': 4, 'pp': 5, 'remove':
 
 def make_cases(chk):
     n = 60 if chk.tier == 'quick' else 600
-    hi = 12 if chk.tier == 'quick' else 30
+    hi = 12 if chk.tier == 'quick' else 16     # the model's exact rationals grow with the length of a history: more histories, not longer ones
     gens = []
     for i in range(n):
         rng = random.Random(chk.seed * 100003 + 40000 + i)
@@ -25,8 +25,32 @@ def nontrivial(prog, obs):
 def run(chk, gate, status):
     gens = make_cases(chk)
     chk.assumptions += ['recipe-level fill_to on a slice is covered by C08 (known finding D13)']
-    return histcheck.run(chk, gens, oracles.c07, 'C07', RULE, nontrivial)
+    cov = histcheck.run(chk, gens, oracles.c07, 'C07', RULE, nontrivial)
+    # recipe steps on plates and slices act on the wells addressed when the step was written (operands spelled as slices, slices of
+    # slices and list selectors whose list is changed afterwards): the baked plates against the eager execution and the model
+    from props import C08
+    n = 14 if chk.tier == 'quick' else 120
+    cases, i = [], 0
+    while len(cases) < n and i < 10 * n:
+        rng = random.Random(chk.seed * 100003 + 71000 + i)
+        i += 1
+        rg = recipes.RecipeGen(rng, rng.randint(3, 9), allow_d13=False, with_solutions=False)
+        if sum(1 for st in rg.steps if any('p' in st.get(k, {}) for k in ('src', 'dst', 't') if isinstance(st.get(k), dict))) >= 2:
+            cases.append((rg, []))
+
+    def recipe_oracle(prog, rg, out, qres):
+        f, known = C08.oracle(prog, rg, out, qres)
+        return ['recipe steps on plates: ' + x for x in f], known
+    rc = recipes.check(chk, 'C07r', cases, recipe_oracle, RULE, C08.nontrivial)
+    cov['recipe_clause'] = {k: rc[k] for k in ('programs', 'distinct_nontrivial', 'disagreements_checked', 'oracle_failures')}
+    for k in ('evaluations', 'programs', 'disagreements_checked', 'oracle_failures'):
+        cov[k] += rc[k]
+    return cov
 
 
 def replay(path):
+    import json
+    if 'recipe' in json.load(open(path)):
+        from props import C08
+        return recipes.replay(path, C08.oracle)
     return histcheck.replay(path, oracles.c07)
